@@ -66,6 +66,12 @@ def run(ctx):
             # empty the part of the leaf the sequence starts in: delete the range's first key and the keys below it
             dels = [["del", keys[i]] for i in range(rg[0], max(-1, rg[0] - rng.randint(2, 5)), -1)]
             steps = [[rng.choice(["len", "index", "bool"])] if False else ["len"]] + dels + [[rng.choice(["len", "bool", "list"])], ["index", rng.randint(-3, 3)]]
+        if source in ("keys", "items", "values") and len(keys) >= 4 and rng.random() < 0.35:
+            # park the finger on a leaf in the middle, empty that leaf, then index BACKWARDS across the boundary
+            p_ = rng.randrange(2, len(keys))
+            dels = [["del", keys[i]] for i in range(max(0, p_ - 2), min(len(keys), p_ + 3))]
+            rng.shuffle(dels)
+            steps = [["index", p_]] + dels + [["index", max(0, p_ - 3)], ["index", 0], ["index", 0], ["index", -1], ["len"]]
         order = list(keys)
         if rng.random() < 0.5:
             rng.shuffle(order)          # leaves filled to different degrees
